@@ -543,9 +543,13 @@ func (hm *HandshakeManager) unlockedDeleteHostInfo(hostinfo *HostInfo) {
 		hm.vpnIps = map[netip.Addr]*HandshakeHostInfo{}
 	}
 
-	delete(hm.indexes, hostinfo.localIndexId)
-	if len(hm.indexes) == 0 {
-		hm.indexes = map[uint32]*HandshakeHostInfo{}
+	// We are also handed hostinfos that live in the main hostmap (a recv_error closes the tunnel first and then
+	// comes here). Their index may already belong to a new pending handshake, only release what this hostinfo owns.
+	if hh, ok := hm.indexes[hostinfo.localIndexId]; ok && hh.hostinfo == hostinfo {
+		delete(hm.indexes, hostinfo.localIndexId)
+		if len(hm.indexes) == 0 {
+			hm.indexes = map[uint32]*HandshakeHostInfo{}
+		}
 	}
 
 	if hm.l.Enabled(context.Background(), slog.LevelDebug) {
